@@ -145,6 +145,11 @@ static void w_stop(m_mod_t *self) {
     int notif_opt = stop_notif_opt, by_teardown = stop_by_teardown;
     run_armed(s, CB_STOP);
     mon_flush();
+    if ((dereg_busy[s] || (teardown_busy && by_teardown)) && MD[s].present && (MD[s].st == S_RUNNING || MD[s].st == S_PAUSED)) {
+        /* restarted by its own on_stop while it is being deregistered: it is stopped once more (with its stop callback) before it becomes a ZOMBIE */
+        if (MD[s].st == S_RUNNING) exp_stop_run[s]++; else exp_stop_other[s]++;
+        mon_stop_effects(s);
+    }
     /* the library announces the stop right after this callback, unless the module was deregistered inside it */
     if (MD[s].st != S_ZOMBIE && MD[s].present) post_push(POST_STOPPED, s, notif_opt);
     if (teardown_busy && by_teardown && MD[s].present) { mon_flush(); teardown_zombie(s); }
